@@ -70,6 +70,7 @@ func (v *VM) Abort() {
 
 // Run starts the execution.
 func (v *VM) Run() (err error) {
+	verifRunStart(v)
 	// reset VM states
 	v.sp = 0
 	v.curFrame = &(v.frames[0])
